@@ -1,7 +1,6 @@
 package c05
 
 import (
-	"fmt"
 	"strings"
 	"testing"
 
@@ -47,16 +46,19 @@ func TestRegress(t *testing.T) {
 	}
 }
 
-// K1 (known finding): with exactly 63 handlers the cursor of a completed chain equals the abort sentinel.
-func TestKnownK1(t *testing.T) {
-	trace, esc := runFlat(63, 1)
-	if esc != nil {
-		t.Fatalf("chain of 63 handlers panicked: %v", esc)
-	}
-	if n := strings.Count(trace, "enter "); n != 63 {
-		t.Fatalf("chain of 63 handlers: %d started", n)
-	}
-	if strings.Contains(trace, "aborted=true") {
-		fmt.Println("KNOWN-FINDING-CANDIDATE: property=C05 key=len63-post-completion chain of exactly 63 handlers (62 middleware + main), nobody aborts: IsAborted() is true in the code after Next() once the chain has completed")
+// K1 (was a known finding, repaired by f08c905): with exactly 63 handlers the cursor of a completed chain equals the
+// old abort sentinel; IsAborted() must stay false when nobody aborts.
+func TestRegressK1(t *testing.T) {
+	for _, nexts := range []int{0, 1, 2} {
+		trace, esc := runFlat(63, nexts)
+		if esc != nil {
+			t.Fatalf("chain of 63 handlers panicked: %v", esc)
+		}
+		if n := strings.Count(trace, "enter "); n != 63 {
+			t.Fatalf("chain of 63 handlers: %d started", n)
+		}
+		if strings.Contains(trace, "aborted=true") {
+			t.Errorf("chain of exactly 63 handlers calling Next() %d times, nobody aborts: IsAborted() reported true", nexts)
+		}
 	}
 }
